@@ -58,13 +58,13 @@ pub open spec fn zfr_crypto<'a>(z: ZipFileReader<'a>) -> Option<CryptoReader<'a>
 }
 // C16: "this entry may report end-of-file": an AES entry only once its authentication code has been read and compared
 pub open spec fn aes_authenticated<'a>(c: CryptoReader<'a>) -> bool {
-    c matches CryptoReader::Aes { reader: a, .. } ==> a.g_finalized()
+    c matches CryptoReader::Aes { reader: a, .. } ==> a.g_authenticated()
 }
 // the same crypto reader up to what reading does to it (variant kept; for an AES reader: mode, password kept, authentication never undone)
 pub open spec fn crypto_kept<'a>(a: CryptoReader<'a>, b: CryptoReader<'a>) -> bool {
     match a {
         CryptoReader::Aes { reader: a0, vendor_version: v0 } => b matches CryptoReader::Aes { reader: a1, vendor_version: v1 } && v1 == v0
-            && a1.g_mode() == a0.g_mode() && a1.g_password() == a0.g_password() && (a0.g_finalized() ==> a1.g_finalized()),
+            && a1.g_mode() == a0.g_mode() && a1.g_password() == a0.g_password() && (a0.g_authenticated() ==> a1.g_authenticated()),
         CryptoReader::Plaintext(_) => b is Plaintext,
         CryptoReader::ZipCrypto(_) => b is ZipCrypto,
     }
